@@ -759,7 +759,7 @@ Proof.
       RInv (length ports) (done ++ map (toU ports) ((c, ps) :: rest)) [] (qnth pp') /\ length pp' = length pp /\
       (forall p, 0 <= nth p pp' 0)).
     { intros a RA' L1 NN1.
-      destruct (IH _ (done ++ [u]) pp1 ex pp') as (R' & L' & N'); try assumption.
+      destruct (IH (set_pp k idx pp1) (done ++ [u]) pp1 ex pp') as (R' & L' & N'); try assumption.
       - intros x Hx. apply WF. right. exact Hx.
       - intros c' ps' I' L2. rewrite app_length. cbn [length].
         replace (length done + 1 + length rest)%nat with (length done + S (length rest))%nat by lia.
@@ -812,7 +812,7 @@ Proof.
         -- unfold a. rewrite sumn_minus, sumn_plus.
            rewrite (sumn_ushare (length ports) u) by (rewrite UP; assumption).
            assert (E : sumn (length ports) (qnth pp1) == sumn (length ports) (qnth pp)).
-           { rewrite <- LP at 2. rewrite <- L1 at 1. rewrite <- LP, <- !lsum_sumn. rewrite <- L1 at 1.
+           { rewrite <- LP at 2. replace (length ports) with (length pp1) by congruence.
              rewrite <- !lsum_sumn. exact S1. }
            rewrite E, UC. ring.
         -- intros p _. unfold a. ring.
@@ -820,7 +820,7 @@ Proof.
            destruct (PO p Hi) as [(Z1 & Z2)|(Z1 & Z2)]; [|left; unfold dcell in Z2; lra].
            right. intros u' Hu' Hp'.
            apply in_map_iff in Hu'. destruct Hu' as ([c' qs] & E & Hy). subst u'.
-           destruct (WF (c', qs) (or_intror (or_intror Hy))) as (Hc' & ND' & Hne'). cbn [fst snd] in Hc', ND', Hne'.
+           destruct (WF (c', qs) (or_intror Hy)) as (Hc' & ND' & Hne'). cbn [fst snd] in Hc', ND', Hne'.
            destruct (RES c' qs (or_intror Hy)) as (ind' & IO').
            destruct (indices_of_resolve QNum _ _ _ IO') as (RS' & LI').
            unfold toU in *. cbn [up uc fst snd] in *. rewrite RS' in *.
@@ -836,7 +836,157 @@ Proof.
              { unfold ushare. cbn [up uc]. apply memb_In in Hp'. rewrite Hp', LI'. reflexivity. }
              rewrite <- U'. apply uniform_ge_member; [exact WFrest|].
              apply in_map_iff. exists (c', qs). split; [cbn [fst snd]; rewrite RS'; reflexivity | exact Hy]. }
-           pose proof (CELL p Hi) as C. unfold qnth in C. pose proof (PS p Hi). lra.
+           pose proof (CELL p Hi) as C. unfold qnth in C. pose proof (PS p Hi) as H0.
+           set (U := uniform _ p) in C. change (c' / inject_Z (Z.of_nat (length qs)) <= U) in GE.
+           clearbody U. lra.
       * intros p. destruct (in_dec Nat.eq_dec p ind) as [i|ni]; [|rewrite (O1 p ni); apply NN].
         destruct (PO p i) as [(Z1 & _)|(Z1 & _)]; lra.
 Qed.
+
+(* ================================================================ the instruction-level statement *)
+Lemma feasible_mono P eps eps' us v : eps <= eps' -> Feasible P eps us v -> Feasible P eps' us v.
+Proof.
+  intros He (sh & A & B & C & D). exists sh. split; [|split; [|split]]; try assumption.
+  intros u p Hu Hp. specialize (A u p Hu Hp). lra.
+Qed.
+
+Lemma uniform_nil p : uniform [] p == 0.
+Proof. unfold uniform. simpl. reflexivity. Qed.
+
+Lemma rinv_feasible P us v : RInv P us [] v -> Feasible P (1 # 100) us v.
+Proof.
+  intros (A & R1 & R2 & R3 & R4 & _). exists A. split; [|split; [|split]].
+  - intros u p Hu Hp. specialize (R1 u p Hu Hp). lra.
+  - exact R2.
+  - exact R3.
+  - intros p Hp. rewrite (R4 p Hp), uniform_nil. ring.
+Qed.
+
+Lemma rinv_start P us v : (forall p, (p < P)%nat -> v p == uniform us p) -> RInv P [] us v.
+Proof.
+  intros H. exists (fun _ _ => 0). split; [|split; [|split; [|split]]].
+  - intros i p Hi. simpl in Hi. lia.
+  - intros i p Hi. simpl in Hi. lia.
+  - intros i Hi. simpl in Hi. lia.
+  - intros p Hp. rewrite (H p Hp). simpl. ring.
+  - intros p Hp. left. cbn [length sumn]. change (qn 0) with 0. lra.
+Qed.
+
+(* ---- the hypotheses as booleans ---- *)
+Fixpoint nodupb (l : list nat) : bool :=
+  match l with [] => true | x :: r => negb (memb x r) && nodupb r end.
+
+Lemma nodupb_NoDup l : nodupb l = true -> NoDup l.
+Proof.
+  induction l as [|x l IH]; intros H; [constructor|].
+  cbn [nodupb] in H. apply andb_true_iff in H. destruct H as (H1 & H2). constructor.
+  - intros C. apply memb_In in C. rewrite C in H1. discriminate.
+  - apply IH. exact H2.
+Qed.
+
+(* one micro-op of an instruction with m micro-ops: cycles >= 0, at least one port, resolved ports pairwise
+   different, and -- if it has two or more ports, i.e. if it is balanced at all -- uniform share > m/200 *)
+Definition uop_okb (ports : list string) (m : nat) (u : uop (T:=Q)) : bool :=
+  Qle_bool 0 (fst u) && nodupb (resolve ports (snd u)) && negb (Nat.eqb (length (snd u)) 0) &&
+  ((length (snd u) <? 2)%nat ||
+   negb (Qle_bool (fst u / inject_Z (Z.of_nat (length (snd u)))) (qn m * (1 # 200)))).
+
+Definition instr_okb (ports : list string) (us : list (uop (T:=Q))) : bool :=
+  forallb (uop_okb ports (length us)) us.
+
+Lemma uop_okb_spec ports m u :
+  uop_okb ports m u = true ->
+  wf_names ports u /\
+  ((2 <= length (snd u))%nat -> qn m * (1 # 200) < fst u / inject_Z (Z.of_nat (length (snd u)))).
+Proof.
+  unfold uop_okb. intros H.
+  apply andb_true_iff in H. destruct H as (H & H4).
+  apply andb_true_iff in H. destruct H as (H & H3).
+  apply andb_true_iff in H. destruct H as (H1 & H2).
+  split.
+  - split; [apply Qle_bool_iff; exact H1|]. split; [apply nodupb_NoDup; exact H2|].
+    intros C. rewrite C in H3. discriminate.
+  - intros L. apply orb_true_iff in H4. destruct H4 as [H4|H4].
+    + apply Nat.ltb_lt in H4. lia.
+    + apply Qnot_le_lt. intros C. apply Qle_bool_iff in C. rewrite C in H4. discriminate.
+Qed.
+
+(* After balancing ALL micro-ops of ONE instruction (balance_uops), in ANY kernel context k / position idx, starting
+   from a row that is the uniform split of its micro-ops: if the run returns Ok and the exact-zero counter did not
+   move, the row is a feasible split of the instruction's micro-ops with slack 1/100 per (micro-op, port), every
+   cell is >= 0 and the row keeps its length. *)
+Theorem balance_instr_feasible_gen ports k idx us pp ex pp' :
+  instr_okb ports us = true ->
+  length pp = length ports ->
+  (forall p, (p < length ports)%nat -> qnth pp p == uniform (map (toU ports) us) p) ->
+  balance_uops QNum ports k idx pp us ex = Ok (pp', ex) ->
+  Feasible (length ports) (1 # 100) (map (toU ports) us) (qnth pp') /\
+  length pp' = length ports /\ (forall p, 0 <= nth p pp' 0).
+Proof.
+  intros OK LP UN H.
+  assert (SPEC : forall u, In u us -> wf_names ports u /\
+            ((2 <= length (snd u))%nat -> qn (length us) * (1 # 200) < fst u / inject_Z (Z.of_nat (length (snd u))))).
+  { intros u Hu. apply uop_okb_spec. unfold instr_okb in OK. rewrite forallb_forall in OK. apply OK. exact Hu. }
+  assert (WF : forall u, In u us -> wf_names ports u) by (intros u Hu; apply SPEC; exact Hu).
+  assert (NN : forall p, 0 <= nth p pp 0).
+  { intros p. destruct (Nat.lt_ge_cases p (length pp)) as [L|L].
+    - rewrite LP in L. pose proof (UN p L) as E. unfold qnth in E. rewrite E.
+      apply uniform_nonneg. intros x Hx. apply in_map_iff in Hx. destruct Hx as (y & E' & Hy). subst x.
+      destruct (WF y Hy) as (Hy0 & _). exact Hy0.
+    - rewrite nth_overflow by exact L. lra. }
+  destruct (balance_uops_rinv ports idx us k [] pp ex pp' WF) as (R & L & N).
+  - intros c ps I L2. cbn [length Nat.add]. exact (proj2 (SPEC (c, ps) I) L2).
+  - exact LP.
+  - exact NN.
+  - apply rinv_start. exact UN.
+  - exact H.
+  - cbn [app] in R. split; [apply rinv_feasible; exact R|]. split; [congruence | exact N].
+Qed.
+
+(* the same from the model's average_port_pressure *)
+Theorem balance_instr_feasible ports k idx us pp ex pp' :
+  instr_okb ports us = true ->
+  avg_pressure_list QNum ports us = Ok pp ->
+  balance_uops QNum ports k idx pp us ex = Ok (pp', ex) ->
+  Feasible (length ports) (1 # 100) (map (toU ports) us) (qnth pp') /\
+  length pp' = length ports /\ (forall p, 0 <= nth p pp' 0).
+Proof.
+  intros OK AV H.
+  assert (WF : forall u, In u us -> wf_names ports u).
+  { intros u Hu. apply (uop_okb_spec ports (length us)). unfold instr_okb in OK. rewrite forallb_forall in OK. apply OK. exact Hu. }
+  destruct (avg_pressure_is_uniform _ _ _ AV WF) as (L & V).
+  apply (balance_instr_feasible_gen ports k idx us pp ex pp' OK L (fun p _ => V p) H).
+Qed.
+
+(* ... hence (consequences of Feasible, Proofs/Feasible.v): non-negative, supported on admissible ports, total exact,
+   Hall's condition for EVERY port set within 1/100 per (micro-op not confined to the set, port of the set) *)
+Theorem balance_instr_consequences ports k idx us pp ex pp' :
+  instr_okb ports us = true ->
+  avg_pressure_list QNum ports us = Ok pp ->
+  balance_uops QNum ports k idx pp us ex = Ok (pp', ex) ->
+  (forall p, 0 <= qnth pp' p) /\
+  (forall p, (p < length ports)%nat ->
+     (forall u, (u < length us)%nat -> ~ In p (up (uget (map (toU ports) us) u))) -> qnth pp' p == 0) /\
+  sumn (length ports) (qnth pp') == sumn (length us) (fun u => uc (uget (map (toU ports) us) u)) /\
+  (forall S, confined_cycles S (map (toU ports) us) - (1 # 100) * card (length ports) S * nonconfined S (map (toU ports) us)
+             <= load (length ports) S (qnth pp')).
+Proof.
+  intros OK AV H. destruct (balance_instr_feasible ports k idx us pp ex pp' OK AV H) as (F & L & N).
+  split; [exact N|]. split; [|split].
+  - intros p Hp Hno. apply (feasible_support _ _ _ _ F p Hp). rewrite map_length. exact Hno.
+  - rewrite (feasible_total _ _ _ _ F). rewrite map_length. reflexivity.
+  - intros S. apply feasible_hall; [lra | exact F].
+Qed.
+
+(* ---- non-vacuity: 3 ports, 3 micro-ops (two of them on two ports), a second instruction loading port 0 ---- *)
+Definition exm_ports : list string := ["0"; "1"; "2"]%string.
+Definition exm_uops : list (uop (T:=Q)) :=
+  [(1, ["0"; "1"]%string); (1 # 2, ["1"; "2"]%string); (1 # 4, ["2"]%string)].
+Definition exm_kernel : list (instr (T:=Q)) :=
+  [mkinstr 1 [1 # 2; 3 # 4; 1 # 2] (UList exm_uops); mkinstr 1 [3 # 10; 0; 0] (UList [(3 # 10, ["0"]%string)])].
+
+Example balance_instr_nonvacuous :
+  instr_okb exm_ports exm_uops = true /\
+  avg_pressure_list QNum exm_ports exm_uops = Ok [1 # 2; 3 # 4; 1 # 2] /\
+  balance_uops QNum exm_ports exm_kernel 0 [1 # 2; 3 # 4; 1 # 2] exm_uops 0 = Ok ([12 # 25; 63 # 100; 16 # 25], 0%nat).
+Proof. split; [|split]; vm_compute; reflexivity. Qed.
